@@ -20,6 +20,7 @@ N = {"quick": 220, "thorough": 6000}
 TIME_BUDGET = {"quick": 55, "thorough": 600}
 MIN_NONTRIVIAL = {"quick": 150, "thorough": 2000}
 SHARDS = {"quick": 16, "thorough": 16}
+CASE_WALL = {"quick": 60, "thorough": 400}
 RULE = ("cases = a generated system (Schema/DataClass A with late references Optional['B'], List['B'] (same late name twice), a "
         "constrained late reference 'Amt' = Field(ge=1, le=100), class B referring back to A, a @parse function and a @parse "
         "generator naming late classes, a constrained Param on a late name) or a registry scenario (one thread re-parses an "
@@ -224,6 +225,9 @@ def run_case(case, ctx):
             if r is None or r[0] == "deadlock":
                 ctx.inconclusive_case("scheduler deadlock")
                 return False
+            if r[0] == "raised" and isinstance(r[1], SC.Deadlock):
+                ctx.inconclusive_case("scheduler timeout")
+                return False
             if r[0] == "raised":
                 ctx.violation(f"C20/{how}/worker-raised-an-internal-error/{type(r[1]).__name__}", f"worker {w} script {scripts[w]} raised {r[1]!r} under schedule {wit['switches']}", wit, sig=sig)
                 return False
@@ -358,6 +362,9 @@ def run_registry(case, ctx, sched, rng):
         for w, r in enumerate(res):
             if r is None or r[0] == "deadlock":
                 ctx.inconclusive_case("scheduler deadlock")
+                return False
+            if r[0] == "raised" and isinstance(r[1], SC.Deadlock):
+                ctx.inconclusive_case("scheduler timeout")
                 return False
             if r[0] == "raised":
                 ctx.violation(f"C20/{how}/registry/worker-raised-an-internal-error/{type(r[1]).__name__}", f"{case['kind']}: worker {w} raised {r[1]!r}; schedule {wit['switches']}", wit, sig=sig)
